@@ -66,10 +66,10 @@ CLAIMED["C15"] = dict(
 
 CLAIMED["C13"] = dict(
     engine="E6+E5",
-    technique="static analysis: structural inference of memo keys and lazy flags, reset/cover rules on the CFG of every fireParameterChanged sibling, lazy-flag coverage via callee effect summaries, sibling protocol and copy/assign member agreement; reference-aliasing rule at call sites of update-by-scalar helpers (callee summaries: which const-reference scalars are read inside a loop that writes the container); accessor/view expression agreement of the transition models; argument-swap rule; path rule fill -> shift-by-maximum -> sumExp on log-domain vectors (helpers followed); who-permutes rule on the positional per-segment tables (reference locals resolved)",
+    technique="static analysis: structural inference of memo keys and lazy flags, reset/cover rules on the CFG of every fireParameterChanged sibling, lazy-flag coverage via callee effect summaries, sibling protocol and copy/assign member agreement; reference-aliasing rule at call sites of update-by-scalar helpers (callee summaries: which const-reference scalars are read inside a loop that writes the container); accessor/view expression agreement of the transition models; argument-swap rule; path rule fill -> shift-by-maximum -> sumExp on log-domain vectors (helpers followed); who-permutes rule on the positional per-segment tables (reference locals resolved); disjoint write sets of the first- and second-derivative passes and reset-before-accumulate on their members",
     level=("Static rules decide the history clause ('answers depend only on the current parameter values'): every notification that recomputes the forward pass resets the derivative memo keys and the backward "
            "lazy flags on the same paths; a method that marks a transition model up to date has computed every result served under that flag; the three likelihood classes follow one update protocol; "
-           "copy constructor and operator= copy the same members. No call hands an update-by-scalar helper an element of the vector it updates; Pij(i,j) and the entry getPij() stores are the same expression. A vector of log-likelihoods is reduced by its maximum on every path before VectorTools::sumExp exponentiates it; the per-segment tables are never reordered in place."),
+           "copy constructor and operator= copy the same members. No call hands an update-by-scalar helper an element of the vector it updates; Pij(i,j) and the entry getPij() stores are the same expression. A vector of log-likelihoods is reduced by its maximum on every path before VectorTools::sumExp exponentiates it; the per-segment tables are never reordered in place. The second-derivative pass writes nothing the (memoised) first-derivative pass produced, and each pass resets what it accumulates."),
     note=TB + "Not decided: numerical equality of the three algorithms, agreement with path enumeration, derivative values, stochasticity/stationarity of built-in matrices, flat-array index ranges (E2 not applied here).")
 
 CLAIMED["C12"] = dict(
@@ -107,10 +107,10 @@ CLAIMED["C16"] = dict(
 
 CLAIMED["C14"] = dict(
     engine="E1+E5+E4",
-    technique="static analysis: guard dominance for inserting reads of the node/edge tables, mirrored-call sibling rule (link vs unlink under '!directed_'), must-pass notification after erase (through private helpers), co-update of map groups, assign-reset and re-subscription order, inverse-map write agreement, refusal-before-write ordering with effect summaries that follow iterators into the tables, discarded-insert-result rule on the relation maps; strict size guard rule for at()/operator[]; sibling agreement of the sixteen neighbour-iterator constructors; emptied-before-refill rule for the observer's slot tables (resize alone keeps old slots); start()/next() sibling agreement on the skip loop of the observer iterators",
+    technique="static analysis: guard dominance for inserting reads of the node/edge tables, mirrored-call sibling rule (link vs unlink under '!directed_'), must-pass notification after erase (through private helpers), co-update of map groups, assign-reset and re-subscription order, inverse-map write agreement, refusal-before-write ordering with effect summaries that follow iterators into the tables, discarded-insert-result rule on the relation maps; strict size guard rule for at()/operator[]; sibling agreement of the sixteen neighbour-iterator constructors; emptied-before-refill rule for the observer's slot tables (resize alone keeps old slots); start()/next() sibling agreement on the skip loop of the observer iterators; allocator rule for edges recorded under a caller-chosen id",
     level=("Static rules decide for every history: the node/edge tables never gain phantom entries through an unguarded operator[] read; unlink mirrors link for undirected graphs; every deletion reaches the observer "
            "notification; an object forgotten by an observer is forgotten in every map; observer assignment clears, unsubscribes and re-subscribes; paired inverse maps are written consistently (copy constructors included); no member refuses after it has changed the tables (own throws, precondition helpers, and the mirrored test-then-erase helper for a node's relation with itself); "
-           "a relation recorded with a discarded insert() result is preceded by an absence test (refuted on the pinned tree: known finding, parallel edges). An index compared with a table's size before at() is compared strictly; all spellings of the outgoing (incoming) neighbour iterators walk the same relation map. Observer assignment empties its slot tables before refilling them; start() and next() of the observer's iterators both skip graph elements without an object."),
+           "a relation recorded with a discarded insert() result is preceded by an absence test (refuted on the pinned tree: known finding, parallel edges). An index compared with a table's size before at() is compared strictly; all spellings of the outgoing (incoming) neighbour iterators walk the same relation map. Observer assignment empties its slot tables before refilling them; start() and next() of the observer's iterators both skip graph elements without an object. An edge recorded under an id chosen outside the class moves the id counter past that id."),
     note=TB + "Not decided: agreement with a reference multigraph over histories, iterator contents vs list queries, unchecked find() results on absent ids in protected members (undefined behaviour tolerated by libstdc++).")
 
 CLAIMED["C11"] = dict(
